@@ -13,7 +13,7 @@ META = {
     ],
     "reference_model": "kani/src/refs/b64.rs (RFC 4648 §4 table and padding rules; strict classifier)",
     "stubs": [],
-    "assumes": ["decode inputs are ASCII (< 0x80) so that they are valid &str; non-ASCII text is outside the bound"],
+    "assumes": ["decode inputs are ASCII (< 0x80), plus templates with one symbolic 2-byte UTF-8 character (3-/4-byte characters are outside the bound)"],
     "outside_bounds": [
         "Base64 inputs longer than the listed shapes (encode > 7 bytes, decode > 8 symbols)",
         "non-canonical final groups (non-zero discarded bits): either outcome accepted, RFC 4648 §3.5",
@@ -38,6 +38,9 @@ def harnesses():
     for N in range(0, 10):
         A(H("c18_b64_dec_%d" % N, "b64_dec::<_, %d>" % N, N + 2, "quick" if N <= 5 else "thorough",
             "Base64 decode of %d symbolic ASCII bytes: Ok(bytes) iff RFC 4648 text, never panics" % N, timeout=1200))
+    for N, POS in ((4, 0), (4, 1), (4, 2), (8, 3), (8, 6), (2, 0)):
+        A(H("c18_b64_dec_mb_%d_%d" % (N, POS), "b64_dec_mb::<_, %d, %d>" % (N, POS), N + 2, "quick" if (N, POS) in ((4, 0), (4, 2), (8, 3)) else "thorough",
+            "Base64 decode of %d bytes with a symbolic 2-byte UTF-8 character at offset %d: rejected, no panic" % (N, POS), timeout=1200))
     for N in (4, 8):
         A(H("c18_b64_dec_alpha_%d" % N, "b64_dec_alpha::<_, %d>" % N, N + 2, "quick" if N == 4 else "thorough",
             "Base64 decode of %d symbols from the alphabet/'=' (every group incl. all padding placements)" % N, timeout=1200))
